@@ -25,6 +25,7 @@ func runC13(c *vu.Case) {
 	streams := map[int]*simnet.Stream{}
 	conns := map[int]*simnet.Conn{}
 	inbound := map[int]bool{}
+	pendingH := map[int]func(){}
 	defer func() {
 		if emitter != nil {
 			emitter.Close()
@@ -121,6 +122,37 @@ func runC13(c *vu.Case) {
 			}
 			synctest.Wait()
 			res = "opened"
+		case "nego":
+			// an inbound stream whose protocol negotiation has finished but whose protocol is not yet recorded on the stream
+			// (the host does that next, then hands the stream to the handler it looked up): a mode switch in between does not
+			// see it as a DHT stream
+			id := atoi(f[1])
+			cdir := network.DirInbound
+			if f[2] == "out" {
+				cdir = network.DirOutbound
+			}
+			handler := h.Handler(vProto)
+			if handler == nil {
+				res = "nohandler"
+				break
+			}
+			conn := h.Net().AddConn(vPeer(100+id), cdir, nil)
+			conns[id] = conn
+			s := conn.NewSimStream("", network.DirInbound)
+			streams[id] = s
+			pendingH[id] = func() { _ = s.SetProtocol(vProto); go handler(s) }
+			res = "opened"
+		case "deliver":
+			id := atoi(f[1])
+			if fn := pendingH[id]; fn != nil {
+				delete(pendingH, id)
+				inbound[id] = true
+				fn()
+				synctest.Wait()
+				res = "delivered"
+			} else {
+				res = "nothing"
+			}
 		case "req":
 			id := atoi(f[1])
 			s := streams[id]
@@ -177,6 +209,13 @@ func genC13(r *vu.RNG, c *vu.Case) bool {
 				c.In = append(c.In, fmt.Sprintf("open %d %s %s", next, conn, dir))
 			}
 			next++
+		case x < 8 && r.Chance(1, 2):
+			if next > 1 && r.Bool() {
+				c.In = append(c.In, fmt.Sprintf("deliver %d", r.Range(1, next-1)))
+			} else {
+				c.In = append(c.In, fmt.Sprintf("nego %d %s", next, []string{"in", "out"}[r.Intn(2)]))
+				next++
+			}
 		default:
 			if next > 1 {
 				c.In = append(c.In, fmt.Sprintf("req %d", r.Range(1, next-1)))
